@@ -22,6 +22,14 @@ func fname(f *ssa.Function) string {
 		return "<nil>"
 	}
 	s := f.String()
+	switch s {
+	case "io/ioutil.ReadFile":
+		return "os.ReadFile"
+	case "io/ioutil.WriteFile":
+		return "os.WriteFile"
+	case "io/ioutil.ReadAll":
+		return "io.ReadAll"
+	}
 	s = strings.ReplaceAll(s, modPath+"/", "poly/")
 	s = strings.ReplaceAll(s, modPath+".", "poly.")
 	s = strings.ReplaceAll(s, modPath, "poly")
@@ -160,6 +168,7 @@ type Term struct {
 	Name string
 	Args []*Term
 	V    ssa.Value
+	Cyc  bool // phi that (transitively) depends on itself
 	str  string
 }
 
@@ -168,6 +177,12 @@ func (t *Term) String() string {
 		return "nil"
 	}
 	if t.str != "" {
+		return t.str
+	}
+	// loop-carried values print atomically, so a term reads the same whether it is built from inside
+	// or outside the cycle (structure stays available in Args of the outermost occurrence)
+	if t.Op == "rec" || (t.Op == "phi" && t.Cyc) {
+		t.str = "phi[" + t.Name + "]"
 		return t.str
 	}
 	var sb strings.Builder
@@ -190,17 +205,20 @@ func (t *Term) String() string {
 }
 
 type TermBuilder struct {
-	F        *ssa.Function
-	memo     map[ssa.Value]*Term
-	visiting map[ssa.Value]bool
-	stores   map[ssa.Value][]*ssa.Store // by root alloc
-	built    bool
+	F             *ssa.Function
+	memo          map[ssa.Value]*Term
+	visiting      map[ssa.Value]bool
+	stores        map[ssa.Value][]*ssa.Store // by root alloc
+	built         bool
 	closureStores map[*ssa.Store]bool
-	pdom     map[*ssa.BasicBlock]map[*ssa.BasicBlock]bool
-	MaxDepth int
-	NoInline bool
-	inlineDepth int
-	Choose   func(*ssa.Phi) ssa.Value // optional: resolve a phi under a mode valuation
+	pdom          map[*ssa.BasicBlock]map[*ssa.BasicBlock]bool
+	MaxDepth      int
+	NoInline      bool
+	inlineDepth   int
+	Choose        func(*ssa.Phi) ssa.Value // optional: resolve a phi under a mode valuation
+	Deep          bool                     // inline the return terms of module helpers (any shape) unless named in Keep
+	Keep          map[string]bool
+	stack         []*ssa.Function
 	// Inline: module functions whose single-return body may be substituted (none by default).
 }
 
@@ -576,7 +594,7 @@ func (tb *TermBuilder) term(v ssa.Value, depth int) *Term {
 		t.V = v
 	}
 	// do not memoise terms containing rec markers of values still being visited
-	if len(tb.visiting) == 0 || !strings.Contains(t.String(), "rec[") {
+	if len(tb.visiting) == 0 || !t.contains(func(x *Term) bool { return x.Op == "rec" }) {
 		tb.memo[v] = t
 	}
 	return t
@@ -603,6 +621,10 @@ func (tb *TermBuilder) term1(v ssa.Value, depth int) *Term {
 	case *ssa.Builtin:
 		return &Term{Op: "builtin", Name: v.Name()}
 	case *ssa.BinOp:
+		if isRangeIndex(v) {
+			// the index variable of a range loop: 0, 1, 2, … one step per iteration
+			return &Term{Op: "rangeidx", Name: rangePhi(v).Name()}
+		}
 		x, y := tb.term(v.X, d), tb.term(v.Y, d)
 		if commutative(v.Op, v.X.Type()) && x.String() > y.String() {
 			x, y = y, x
@@ -627,6 +649,39 @@ func (tb *TermBuilder) term1(v ssa.Value, depth int) *Term {
 	case *ssa.Call:
 		name := calleeName(v)
 		args := callArgs(v)
+		if g := v.Call.StaticCallee(); g != nil && tb.Deep && !tb.NoInline && tb.inlineDepth < 3 && !tb.Keep[name] && pkgOf(g) == pkgOf(tb.F) && deepInlinable(g) && !tb.inStack(g) {
+			sub := newTB(g)
+			sub.inlineDepth = tb.inlineDepth + 1
+			sub.Deep, sub.Keep = true, tb.Keep
+			sub.stack = append(append([]*ssa.Function{}, tb.stack...), tb.F)
+			ats := make([]*Term, len(args))
+			for i, a := range args {
+				ats[i] = tb.term(a, d)
+			}
+			nres := g.Signature.Results().Len()
+			var comps []*Term
+			for k := 0; k < nres; k++ {
+				var alts []*Term
+				seenA := map[string]bool{}
+				for _, r := range returnsOf(g) {
+					t := substParams(sub.T(r.Results[k]), ats)
+					if !seenA[t.String()] {
+						seenA[t.String()] = true
+						alts = append(alts, t)
+					}
+				}
+				if len(alts) == 1 {
+					comps = append(comps, alts[0])
+				} else {
+					sort.Slice(alts, func(i, j int) bool { return alts[i].String() < alts[j].String() })
+					comps = append(comps, &Term{Op: "phi", Name: "ret:" + g.Name(), Args: alts})
+				}
+			}
+			if nres == 1 {
+				return comps[0]
+			}
+			return &Term{Op: "tuple", Name: fname(g), Args: comps}
+		}
 		if g := v.Call.StaticCallee(); g != nil && !tb.NoInline && tb.inlineDepth < 4 && inlinable(g) {
 			sub := newTB(g)
 			sub.inlineDepth = tb.inlineDepth + 1
@@ -655,6 +710,10 @@ func (tb *TermBuilder) term1(v ssa.Value, depth int) *Term {
 		if ct := tb.collectTerm(v, d); ct != nil {
 			return ct
 		}
+		if rangePhi(v) == v {
+			// the index variable of a counted loop: 0, 1, 2, … one step per iteration
+			return &Term{Op: "rangeidx", Name: v.Name()}
+		}
 		var ts []*Term
 		seen := map[string]bool{}
 		for _, e := range v.Edges {
@@ -665,7 +724,7 @@ func (tb *TermBuilder) term1(v ssa.Value, depth int) *Term {
 			}
 		}
 		sort.Slice(ts, func(i, j int) bool { return ts[i].String() < ts[j].String() })
-		return &Term{Op: "phi", Name: v.Name(), Args: ts}
+		return &Term{Op: "phi", Name: v.Name(), Args: ts, Cyc: isCyclicPhi(v)}
 	case *ssa.FieldAddr:
 		st := v.X.Type().Underlying().(*types.Pointer).Elem().Underlying().(*types.Struct)
 		return &Term{Op: "fieldaddr", Name: st.Field(v.Field).Name(), Args: []*Term{tb.term(v.X, d)}}
@@ -702,7 +761,11 @@ func (tb *TermBuilder) term1(v ssa.Value, depth int) *Term {
 	case *ssa.SliceToArrayPointer:
 		return tb.term(v.X, d)
 	case *ssa.Extract:
-		return &Term{Op: "extract", Name: strconv.Itoa(v.Index), Args: []*Term{tb.term(v.Tuple, d)}}
+		tt := tb.term(v.Tuple, d)
+		if tt.Op == "tuple" && v.Index < len(tt.Args) {
+			return tt.Args[v.Index]
+		}
+		return &Term{Op: "extract", Name: strconv.Itoa(v.Index), Args: []*Term{tt}}
 	case *ssa.Alloc:
 		return &Term{Op: "alloc", Name: tname(deref(v.Type())) + "@" + v.Name()}
 	case *ssa.MakeSlice:
@@ -1118,25 +1181,57 @@ func funcsSorted(m map[*ssa.Function]bool) []*ssa.Function {
 // isRangeIndex recognises the index variable of a "for i := range xs" / "for _, x := range xs"
 // loop as go/ssa emits it: i' = phi(-1, i'+1) used as i'+1, or the plain counted loop phi(0, i+1).
 // Either way the value ranges over 0..len-1 in increasing order, one step per iteration.
-func isRangeIndex(v ssa.Value) bool {
-	if b, ok := v.(*ssa.BinOp); ok && b.Op == token.ADD {
-		if c, ok := b.Y.(*ssa.Const); ok && c.Value != nil && c.Value.ExactString() == "1" {
-			if p, ok := b.X.(*ssa.Phi); ok && len(p.Edges) >= 2 {
-				inits, steps := 0, 0
-				for _, e := range p.Edges {
-					if c0, ok := e.(*ssa.Const); ok && c0.Value != nil && c0.Value.ExactString() == "-1" {
-						inits++
-					} else if e == ssa.Value(b) {
-						steps++ // back edges, incl. those of `continue`
-					} else {
-						return false
-					}
+func isRangeIndex(v ssa.Value) bool { return rangePhi(v) != nil }
+
+// rangePhi returns the loop phi behind an index variable in either form, or nil.
+func rangePhi(v ssa.Value) *ssa.Phi {
+	isOne := func(x ssa.Value) bool {
+		c, ok := x.(*ssa.Const)
+		return ok && c.Value != nil && c.Value.ExactString() == "1"
+	}
+	if b, ok := v.(*ssa.BinOp); ok && b.Op == token.ADD && isOne(b.Y) {
+		if p, ok := b.X.(*ssa.Phi); ok && len(p.Edges) >= 2 {
+			inits, steps := 0, 0
+			for _, e := range p.Edges {
+				if c0, ok := e.(*ssa.Const); ok && c0.Value != nil && c0.Value.ExactString() == "-1" {
+					inits++
+				} else if e == ssa.Value(b) {
+					steps++ // back edges, incl. those of `continue`
+				} else {
+					return nil
 				}
-				return inits == 1 && steps >= 1
+			}
+			if inits == 1 && steps >= 1 {
+				return p
+			}
+		}
+		return nil
+	}
+	// for i := 0; i < n; i++ : phi(0, i+1) with every other edge the same increment
+	if p, ok := v.(*ssa.Phi); ok && len(p.Edges) >= 2 {
+		if bt, ok := p.Type().Underlying().(*types.Basic); !ok || bt.Info()&types.IsInteger == 0 {
+			return nil
+		}
+		inits, steps := 0, 0
+		for _, e := range p.Edges {
+			if c0, ok := e.(*ssa.Const); ok && c0.Value != nil && c0.Value.ExactString() == "0" {
+				inits++
+			} else if b, ok := e.(*ssa.BinOp); ok && b.Op == token.ADD && b.X == ssa.Value(p) && isOne(b.Y) {
+				steps++
+			} else {
+				return nil
+			}
+		}
+		// the loop guard must be i < something, tested in the phi's own block
+		if inits == 1 && steps >= 1 {
+			if ifi, ok := p.Block().Instrs[len(p.Block().Instrs)-1].(*ssa.If); ok {
+				if cmp, ok := ifi.Cond.(*ssa.BinOp); ok && cmp.Op == token.LSS && cmp.X == ssa.Value(p) {
+					return p
+				}
 			}
 		}
 	}
-	return false
+	return nil
 }
 
 // returnsOf lists the Return instructions of f.
@@ -1359,7 +1454,12 @@ func (c *Cond) atoms() []condAtom {
 	walk = func(x *Cond, neg, disj bool) {
 		switch x.Op {
 		case "atom":
-			out = append(out, condAtom{x.Atom, neg, disj})
+			at := x.Atom
+			if at.isBin("!=") { // a != b is carried as !(a == b): one canonical polarity
+				at = &Term{Op: "binop", Name: "==", Args: at.Args, V: at.V}
+				neg = !neg
+			}
+			out = append(out, condAtom{at, neg, disj})
 		case "not":
 			walk(x.Args[0], !neg, disj)
 		case "and":
@@ -1378,6 +1478,9 @@ func (c *Cond) atoms() []condAtom {
 
 // implies reports whether the path condition has the conjunct atom (by term string) with the given polarity.
 func (c *Cond) implies(atom string, neg bool) bool {
+	if strings.HasPrefix(atom, "binop[!=](") {
+		atom, neg = "binop[==]("+atom[len("binop[!=]("):], !neg
+	}
 	for _, a := range c.atoms() {
 		if !a.Disj && a.Neg == neg && a.Atom.String() == atom {
 			return true
@@ -1418,6 +1521,12 @@ func substParams(t *Term, args []*Term) *Term {
 	for i, a := range t.Args {
 		n.Args[i] = substParams(a, args)
 	}
+	// a field of a substituted record literal reduces to the literal's component
+	if n.Op == "field" && len(n.Args) == 1 && (n.Args[0].Op == "anyof" || n.Args[0].Op == "partial" || n.Args[0].Op == "struct") {
+		if p := projectField(n.Args[0], n.Name); p != nil {
+			return p
+		}
+	}
 	// keep commutative operands canonically ordered after substitution
 	if n.Op == "binop" && len(n.Args) == 2 {
 		switch n.Name {
@@ -1433,11 +1542,10 @@ func substParams(t *Term, args []*Term) *Term {
 // eachOrZip: X[i] with i a range index. If the loop ranges over X itself this is each(X); if it
 // ranges over another slice Y it is zip(X, Y): "the element of X at the position of the current element of Y".
 func (tb *TermBuilder) eachOrZip(x *Term, idx ssa.Value) *Term {
-	b := idx.(*ssa.BinOp)
-	ph := b.X.(*ssa.Phi)
+	ph := rangePhi(idx)
 	// loop guard: idx < len(Y) in the phi's block
 	if ifi, ok := ph.Block().Instrs[len(ph.Block().Instrs)-1].(*ssa.If); ok {
-		if cmp, ok := ifi.Cond.(*ssa.BinOp); ok && cmp.Op == token.LSS && cmp.X == ssa.Value(b) {
+		if cmp, ok := ifi.Cond.(*ssa.BinOp); ok && cmp.Op == token.LSS && cmp.X == idx {
 			if ln, ok := cmp.Y.(*ssa.Call); ok && calleeName(ln) == "builtin:len" {
 				y := tb.term(ln.Call.Args[0], 1)
 				if y.String() == x.String() {
@@ -1596,4 +1704,142 @@ func topAppendSites(t *Term) []appSite {
 	}
 	walk(t)
 	return out
+}
+
+func (tb *TermBuilder) inStack(g *ssa.Function) bool {
+	if g == tb.F {
+		return true
+	}
+	for _, f := range tb.stack {
+		if f == g {
+			return true
+		}
+	}
+	return false
+}
+
+// deepInlinable: a module function with a body and at least one result; its return term is
+// substituted at call sites. Effects through pointer parameters are not modelled, so functions
+// that store through a parameter are not inlined.
+func deepInlinable(g *ssa.Function) bool {
+	if !inModule(g) || g.Blocks == nil || g.Signature.Results().Len() == 0 || len(g.FreeVars) > 0 || g.Signature.Variadic() {
+		return false
+	}
+	for _, p := range g.Params {
+		if _, isPtr := p.Type().Underlying().(*types.Pointer); isPtr {
+			if _, all := storedPathsThrough(p); all {
+				return false
+			}
+			if ps, _ := storedPathsThrough(p); len(ps) > 0 {
+				return false
+			}
+		}
+	}
+	return true
+}
+
+// newDeepTB: term builder that looks through module helpers, except those a rule wants to see as calls.
+func newDeepTB(f *ssa.Function, keep ...string) *TermBuilder {
+	tb := newTB(f)
+	tb.Deep = true
+	tb.Keep = map[string]bool{}
+	for _, k := range keep {
+		tb.Keep[k] = true
+	}
+	return tb
+}
+
+// currentWorld is the tree being analysed (set by newCtx); used to resolve package-level initialisers.
+var currentWorld *World
+
+// globalInitTerm: for a term global[pkg.name] whose variable is assigned exactly once, in its
+// package initialiser, and never written at run time, the term of that initial value.
+func globalInitTerm(t *Term) *Term {
+	if t == nil || t.Op != "global" || currentWorld == nil {
+		return nil
+	}
+	g, ok := t.V.(*ssa.Global)
+	if !ok || g.Pkg == nil {
+		return nil
+	}
+	init := g.Pkg.Func("init")
+	if init == nil {
+		return nil
+	}
+	var st *ssa.Store
+	n := 0
+	fs := []*ssa.Function{init}
+	fs = append(fs, init.AnonFuncs...)
+	for _, f := range fs {
+		eachInstr(f, func(i ssa.Instruction) {
+			if s, ok := i.(*ssa.Store); ok && s.Addr == ssa.Value(g) {
+				st = s
+				n++
+			}
+		})
+	}
+	if n != 1 {
+		return nil
+	}
+	for _, f := range currentWorld.moduleFuncs() {
+		if f == init || f.Parent() == init {
+			continue
+		}
+		writes := false
+		eachInstr(f, func(i ssa.Instruction) {
+			if s, ok := i.(*ssa.Store); ok && s.Addr == ssa.Value(g) {
+				writes = true
+			}
+		})
+		if writes {
+			return nil
+		}
+	}
+	return newTB(st.Parent()).T(st.Val)
+}
+
+var cyclicPhiCache = map[*ssa.Phi]bool{}
+
+// isCyclicPhi: does the phi (transitively, through operands) depend on itself?
+func isCyclicPhi(p *ssa.Phi) bool {
+	if r, ok := cyclicPhiCache[p]; ok {
+		return r
+	}
+	seen := map[ssa.Value]bool{}
+	found := false
+	var walk func(v ssa.Value, d int)
+	walk = func(v ssa.Value, d int) {
+		if found || v == nil || seen[v] || d > 200 {
+			return
+		}
+		seen[v] = true
+		ins, ok := v.(ssa.Instruction)
+		if !ok {
+			return
+		}
+		for _, op := range ins.Operands(nil) {
+			if op == nil || *op == nil {
+				continue
+			}
+			if *op == ssa.Value(p) {
+				found = true
+				return
+			}
+			walk(*op, d+1)
+		}
+	}
+	walk(p, 0)
+	cyclicPhiCache[p] = found
+	return found
+}
+
+// isIterCond: the condition of a range loop (slice index below len, or the ok bit of a map/string iterator).
+func isIterCond(t *Term) bool {
+	if t == nil {
+		return false
+	}
+	if t.isBin("<") && t.Args[0].Op == "rangeidx" && t.Args[1].isCall("builtin:len") {
+		return true
+	}
+	return t.Op == "extract" && t.Name == "0" && len(t.Args) == 1 && t.Args[0].Op == "next"
 }
